@@ -12,23 +12,35 @@ def sh(cmd, **kw):
 
 
 def main():
-    sdir, name, checks = sys.argv[1], sys.argv[2], sys.argv[3:]
+    scratch = "--scratch" in sys.argv          # run the checks against a scratch worktree (VERIF_REPO) instead of /repo:
+    args = [a for a in sys.argv[1:] if a != "--scratch"]   # several seeds can then be re-swept at once
+    sdir, name, checks = args[0], args[1], args[2:]
     meta = json.load(open(os.path.join(sdir, "meta.json")))
     v = sh("%s/tools/verify_seed.sh %s" % (VERIF, sdir)).stdout.strip().splitlines()[-1]
     ok = "applies=yes" in v and "demo_without=0" in v and "demo_with=1" in v and "75 passed" in v
     results = {}
     if ok:
-        assert sh("git -C /repo status --porcelain --untracked-files=no").stdout.strip() == "", "/repo not clean"
-        sh("git -C /repo apply %s/patch.diff" % sdir)
+        if scratch:
+            wt = "/tmp/ks/sweep_%s" % name
+            sh("mkdir -p /tmp/ks; git -C /repo worktree remove --force %s; git -C /repo worktree add --detach %s HEAD" % (wt, wt))
+            sh("git -C %s apply %s/patch.diff" % (wt, sdir))
+            envp = "VERIF_REPO=%s VERIF_NPROC=%s " % (wt, os.environ.get("VERIF_NPROC", "4"))
+        else:
+            assert sh("git -C /repo status --porcelain --untracked-files=no").stdout.strip() == "", "/repo not clean"
+            sh("git -C /repo apply %s/patch.diff" % sdir)
+            envp = ""
         try:
             for c in checks:
                 t0 = time.time()
-                r = sh("cd %s && ./check %s --tier quick" % (VERIF, c))
+                r = sh("cd %s && %s./check %s --tier quick" % (VERIF, envp, c))
                 lines = [l for l in r.stdout.splitlines() if l.startswith("  ")]
                 results[c] = dict(exit=r.returncode, violations=r.stdout.count("\nVIOLATION") + r.stdout.startswith("VIOLATION"),
                                   first=(lines[0].strip()[:260] if lines else ""), seconds=round(time.time() - t0, 1))
         finally:
-            sh("git -C /repo checkout -- .")
+            if scratch:
+                sh("git -C /repo worktree remove --force %s" % wt)
+            else:
+                sh("git -C /repo checkout -- .")
     out = os.path.join(VERIF, "seeded", name)
     os.makedirs(out, exist_ok=True)
     if os.path.abspath(sdir) != os.path.abspath(out):
@@ -40,6 +52,7 @@ def main():
              confirmed=dict(command="tools/verify_seed.sh (scratch worktree of /repo HEAD: git apply; pytest; demo with and without the patch)",
                             result=v, ok=ok, repo_head=sh("git -C /repo log --format=%h -1").stdout.strip()),
              checks_run={c: r for c, r in results.items()},
+             applied_to=("a scratch worktree of /repo HEAD (VERIF_REPO)" if scratch else "/repo (git apply, checks, git checkout -- .)"),
              caught_by=[c for c, r in results.items() if r["exit"] == 1 and r["violations"] > 0])
     json.dump(m, open(os.path.join(out, "meta.json"), "w"), indent=1)
     print(name, "confirmed" if ok else "NOT CONFIRMED (%s)" % v, "caught_by=%s" % m["caught_by"],
